@@ -392,6 +392,45 @@ fn main() {
                     prev = cj;
                 }
             };
+            // eqcheck --nonunitary N: N circuits with ancilla initialisation / post-selection (maps n -> m, m != n in general), each paired
+            // with itself, with a copy extended by a cancelling pair on a qubit that is still open, and with the previous such circuit
+            let nonunitary: usize = arg_num(&args, "--nonunitary", 0);
+            if engine == "eqcheck" && nonunitary > 0 {
+                use rand::Rng;
+                let mut rn = gens::rng(seed ^ 0x2017);
+                let al_n = circ::Alphabet { special: vec!["InitAncilla", "PostSelect"], pp: false, threeq: vec![], ..circ::Alphabet::unitary() };
+                let mut prevn: Option<serde_json::Value> = None;
+                let mut made = 0usize;
+                while made < nonunitary {
+                    let n = rn.random_range(1..=3usize);
+                    let len = rn.random_range(1..=6usize);
+                    let gs = circ::random_circuit(&mut rn, n, len, &al_n);
+                    if !gs.iter().any(|g| g.t == "InitAncilla" || g.t == "PostSelect") {
+                        continue;
+                    }
+                    made += 1;
+                    ncirc += 1;
+                    let cj = circ::ag_json(n, &gs);
+                    eng_circ::record_eq_pair_n(&cj, &cj.clone(), "same", &mut tr);
+                    // a cancelling pair appended on a qubit that no post-selection has removed
+                    let open: Vec<usize> = (0..n).filter(|q| !gs.iter().any(|g| g.t == "PostSelect" && g.qs[0] == *q)).collect();
+                    if !open.is_empty() {
+                        let q = open[rn.random_range(0..open.len())];
+                        let mut gs2 = gs.clone();
+                        let (a, b) = [("S", "Sdg"), ("HAD", "HAD"), ("T", "Tdg"), ("NOT", "NOT")][rn.random_range(0..4)];
+                        gs2.push(circ::AG { t: a, qs: vec![q], ph: 0 });
+                        gs2.push(circ::AG { t: b, qs: vec![q], ph: 0 });
+                        eng_circ::record_eq_pair_n(&cj, &circ::ag_json(n, &gs2), "cancelling", &mut tr);
+                        let mut gs3 = gs.clone();
+                        gs3.push(circ::AG { t: "T", qs: vec![q], ph: 0 });
+                        eng_circ::record_eq_pair_n(&circ::ag_json(n, &gs3), &cj, "one_more_gate", &mut tr);
+                    }
+                    if let Some(p) = &prevn {
+                        eng_circ::record_eq_pair_n(p, &cj, "independent", &mut tr);
+                    }
+                    prevn = Some(cj);
+                }
+            }
             for e in args.iter().enumerate().filter(|(_, a)| *a == "--enum").map(|(i, _)| args[i + 1].clone()) {
                 let p: Vec<&str> = e.split(',').collect();
                 let (n, maxlen, al) = (p[0].parse::<usize>().unwrap(), p[1].parse::<usize>().unwrap(), al_of(p[2]));
@@ -426,6 +465,30 @@ fn main() {
                 if meas_boost {
                     circ::add_measurements(&mut gs, n, &mut r);
                 }
+                handle(circ::ag_json(n, &gs), &mut tr);
+                ncirc += 1;
+            }
+            // --anc-layouts K (seed C02_e): K circuits on 3..=maxq(>=3) qubits that START with ancilla initialisations on a random
+            // non-empty proper subset of the qubits in a random order (so that an ancilla sits in front of several still-open inputs),
+            // continue with a unitary body and END with post-selections on a random subset in a random order: the order of the
+            // remaining inputs / outputs of the diagram is then observable in the denoted map
+            let nanc: usize = arg_num(&args, "--anc-layouts", 0);
+            for _ in 0..nanc {
+                let n = r.random_range(3..=maxq.max(3));
+                let mut qs: Vec<usize> = (0..n).collect();
+                for i in (1..qs.len()).rev() {
+                    qs.swap(i, r.random_range(0..=i));
+                }
+                let k = r.random_range(1..n);
+                let mut gs: Vec<circ::AG> = qs[..k].iter().map(|&q| circ::AG { t: "InitAncilla", qs: vec![q], ph: 0 }).collect();
+                let blen = r.random_range(2..=6usize);
+                let body = circ::random_circuit(&mut r, n, blen, &circ::Alphabet { pp: false, threeq: vec![], ..circ::Alphabet::unitary() });
+                gs.extend(body);
+                for i in (1..qs.len()).rev() {
+                    qs.swap(i, r.random_range(0..=i));
+                }
+                let kp = r.random_range(0..n);
+                gs.extend(qs[..kp].iter().map(|&q| circ::AG { t: "PostSelect", qs: vec![q], ph: 0 }));
                 handle(circ::ag_json(n, &gs), &mut tr);
                 ncirc += 1;
             }
